@@ -467,8 +467,10 @@ class World(WsWorld):
             if bad == "13, 8":
                 pass
         elif mut == "origin-bad":
+            # (the last four END with an allowed origin, as the others begin with or contain one: the whole origin counts)
             bad = ch.pick(("http://evil.com", "http://good.com.evil.com", "http://evilgood.com", "https://good.com",
-                           "http://good.com:81", "null", "http://good.com@evil.com", "ftp://good.com"), "badorigin")
+                           "http://good.com:81", "null", "http://good.com@evil.com", "ftp://good.com",
+                           "evil+http://good.com:80", "xhttp://good.com:80", "xhttp://good.com:8080", "evil.http://good.com:8080"), "badorigin")
             hdr = [(k, v) for k, v in hdr if k != origin_key] + [(origin_key, bad)]
             valid = valid_base(self, limit_hit) and self.origin_allowed(bad)
         elif mut == "origin-nohost":
